@@ -2,11 +2,12 @@
     fixes/C30-ampbox-empty-key.patch: an empty key is refused), BinaryBoxProtocol's receive side
     (Int16StringReceiver.dataReceived + StatefulStringProtocol with proto_init/key/value and the
     MAX_LENGTH that toggles between 255 and 65535), and the argument codecs Integer, String,
-    Boolean, ListOf.
+    Boolean, ListOf, Decimal, DateTime, Unicode (text forms in Text.v; Float is NOT modelled: repr()/float() are CPython oracles).
     A box is the list of its (key, value) items (the harness passes sorted(box.items()), which is what
     serialize iterates over; the received dict is printed sorted as well). *)
 From Coq Require Import List Arith NArith ZArith Bool.
-From TwLib Require Import PyBytes Seg.
+From TwLib Require Import PyBytes Seg FramingText.
+From C30 Require Import Text.
 Import ListNotations.
 
 Definition item := (bytes * bytes)%type.
@@ -67,8 +68,9 @@ Definition amp_feed : option (mode * bytes) -> bytes -> list box * option (mode 
 Definition amp_init : option (mode * bytes) := Some (mode0, []).
 
 (** ** argument codecs *)
-Inductive ty := TInt | TStr | TBool | TList (e : ty).
-Inductive val := VInt (z : Z) | VStr (s : bytes) | VBool (b : bool) | VList (l : list val).
+Inductive ty := TInt | TStr | TBool | TList (e : ty) | TDec | TDate | TUni.
+Inductive val := VInt (z : Z) | VStr (s : bytes) | VBool (b : bool) | VList (l : list val)
+  | VDec (d : decimal) | VDate (t : datetime) | VUni (s : list N).   (* Decimal, aware datetime, str as code points *)
 
 Definition MINUS : N := 45%N.
 Definition TRUE : bytes := [84; 114; 117; 101]%N.
@@ -126,6 +128,9 @@ Fixpoint enc (t : ty) (v : val) : option bytes :=
                      | _, _ => None
                      end
          end) l
+  | TDec, VDec d => Some (dec_to_text d)                       (* str(d).encode("ascii") *)
+  | TDate, VDate t => if dt_valid t then Some (dt_to_text t) else None   (* a datetime object is always valid *)
+  | TUni, VUni s => uni_to_bytes s                             (* s.encode("utf-8"); UnicodeEncodeError for surrogates *)
   | _, _ => None
   end.
 
@@ -135,4 +140,7 @@ Fixpoint dec (t : ty) (b : bytes) : option val :=
   | TStr => Some (VStr b)
   | TBool => if beq b TRUE then Some (VBool true) else if beq b FALSE then Some (VBool false) else None
   | TList e => match all_some (map (dec e) (int16_strings b)) with Some l => Some (VList l) | None => None end
+  | TDec => match text_to_dec b with Some d => Some (VDec d) | None => None end
+  | TDate => match text_to_dt b with Some t => Some (VDate t) | None => None end
+  | TUni => match utf8_decode b with Some s => Some (VUni s) | None => None end
   end.
